@@ -1,7 +1,7 @@
 (* Prop_C18.v — the property theorems of C18 and nothing else. *)
 From Coq Require Import List NArith ZArith Bool.
 Import ListNotations.
-From Verif Require Import Base.Val C18.Fs C18.FsLemmas C18.Model_C18 C18.Spec_C18 C18.Proofs_C18.
+From Verif Require Import Base.Val C18.Fs C18.FsLemmas C18.Model_C18 C18.Spec_C18 C18.Proofs_C18 C18.Exact_C18.
 
 (* frame: a path that no op of the merge names and whose inode no op writes is unchanged
    (for every contents set, offset and pre-existing filesystem) *)
@@ -57,3 +57,62 @@ Theorem copyfile_refuses_dir : forall um s x cp n,
   copyfile um s x = ([], Some E_CANNOT).
 Proof. exact copyfile_refuses_dir_proof. Qed.
 Print Assumptions copyfile_refuses_dir.
+
+(* merged_exact, the WHOLE merge, by induction over both passes of merge_contents, on the
+   decidable NoAlias domain (Exact_C18.noalias: the offset exists; distinct locations without
+   "." / ".."; no symlink on the way to any location in the pre-existing tree and no symlink or
+   other non-directory entry of the set above another entry; no '#new' name is, or is above, a
+   location and none exists beforehand; no symlink entry over a live directory; members of a
+   hard-link group go to free names and carry the same data; a bound location has its parents):
+   if the merge returns normally and its ops all succeed then
+   - every entry is installed: its location holds a node that realises it (type, data / target /
+     device, mode, owner, mtime of files, fifos, devices), or, for a directory that existed,
+     the old directory with its mode kept and the recorded owner;
+   - every other path is unchanged, except that missing parent directories of entries may have
+     been created (as directories). *)
+Theorem merged_exact : forall i sf,
+  noalias i = true -> merge_err i = None -> run_opt (merge_ops i) (i_fs i) = Some sf ->
+  (forall x, In x (cset_of i) -> exists n, lookup sf (e_loc x) = Some n /\ installed (i_fs i) x n) /\
+  (forall q, (forall x, In x (cset_of i) -> e_loc x <> q) ->
+     ~ (lookup (i_fs i) q = None /\ exists x, In x (cset_of i) /\ pprefix q (e_loc x)) ->
+     lookup sf q = lookup (i_fs i) q) /\
+  (forall q, (forall x, In x (cset_of i) -> e_loc x <> q) -> lookup (i_fs i) q = None ->
+     (exists x, In x (cset_of i) /\ pprefix q (e_loc x)) ->
+     lookup sf q = None \/ is_diro (lookup sf q) = true).
+Proof. exact merged_exact_proof. Qed.
+Print Assumptions merged_exact.
+
+(* exactness of one entry of ANY non-directory kind (file, symlink, fifo, device) created at a
+   free name, resp. staged at '<cp>#new' and renamed over cp *)
+Theorem entry_direct_exact : forall um s x fp c s',
+  is_kdir x = false -> lookup s fp = None -> create_ops um s x fp = (c, None) ->
+  run_opt (c ++ perms_new x fp) s = Some s' ->
+  (exists n, lookup s' fp = Some n /\ realises x n) /\ (forall q, q <> fp -> lookup s' q = lookup s q).
+Proof. exact entry_direct_exact_proof. Qed.
+Print Assumptions entry_direct_exact.
+
+Theorem entry_staged_exact : forall um s x cp c s',
+  is_kdir x = false -> lookup s (sibling_new cp) = None ->
+  create_ops um s x (sibling_new cp) = (c, None) ->
+  run_opt (c ++ perms_new x (sibling_new cp) ++ [Rename (sibling_new cp) cp]) s = Some s' ->
+  (exists n, lookup s' cp = Some n /\ realises x n) /\ lookup s' (sibling_new cp) = None /\
+  (forall q, q <> cp -> q <> sibling_new cp -> lookup s' q = lookup s q).
+Proof. exact entry_staged_exact_proof. Qed.
+Print Assumptions entry_staged_exact.
+
+(* a new directory (mkdir + ensure_perms twice) and an existing one (owner, mtime; mode kept) *)
+Theorem newdir_exact : forall um s x cp s',
+  e_kind x = KDir ->
+  run_opt (Mkdir cp (dir_create_mode um x) :: perms_new x cp ++ perms_new x cp) s = Some s' ->
+  lookup s cp = None /\ (exists n, lookup s' cp = Some n /\ realises x n) /\
+  (forall q, q <> cp -> lookup s' q = lookup s q).
+Proof. exact newdir_exact_proof. Qed.
+Print Assumptions newdir_exact.
+
+Theorem existingdir_exact : forall s x cp m u g t s',
+  lookup s cp = Some (Dir m u g t) ->
+  run_opt (perms_existing x cp cp (Dir m u g t)) s = Some s' ->
+  (exists n, lookup s' cp = Some n /\ keeps_dir x (Dir m u g t) n) /\
+  (forall q, q <> cp -> lookup s' q = lookup s q).
+Proof. exact existingdir_exact_proof. Qed.
+Print Assumptions existingdir_exact.
